@@ -1,14 +1,14 @@
 SPEC = {
     "id": "C18",
     "props_file": "Props/C18.v",
-    "gen": ["pcsvectors"],
+    "gen": ["pcsvectors", "pcsclock"],
     "streams": [
         {"name": "pcs", "cmd": "pcs",
          "args": {"quick": ["-bits", "1000", "-multi", "120", "-collflips", "100", "-synth", "300"],
-                  "thorough": ["-allbits", "-multi", "1500", "-collflips", "1500", "-synth", "6000"]},
+                  "thorough": ["-allbits", "-multi", "1000", "-collflips", "1000", "-synth", "3000"]},
          "search_args": ["-bits", "6000", "-multi", "800", "-collflips", "600", "-synth", "3000"]},
         {"name": "node", "cmd": "pcs",
-         "args": {"quick": ["-mode", "node", "-cases", "300"], "thorough": ["-mode", "node", "-cases", "8000"]},
+         "args": {"quick": ["-mode", "node", "-cases", "300"], "thorough": ["-mode", "node", "-cases", "4000"]},
          "search_args": ["-mode", "node", "-cases", "4000"]},
     ],
     "trusted_base": [
@@ -18,6 +18,7 @@ SPEC = {
         "error strings of the implementation are mapped to the model's rejection reasons by substring (classify in harness/cmd/pcs/main.go)",
         "synthetic bundles are verified under a harness-generated root added to the exported variable pcs.IntelTrustRoots (no file of /repo is changed, no hook)",
         "vm_compute evaluation of Verif.Pcs.Model / Verif.Pcs.Node on the recorded cases (no extraction)",
+        "harness/cmd/gen pcsclock (go/ast scan of the 11 source files / functions on the verification path for time.Now/Since/Until and rand uses; theorem no_wall_clock_on_verification_path); the call sites pass ctx.Now() and ctx.LastHeight() (read, not checked mechanically)",
         "harness/cmd/gen pcsvectors (copies the testdata vectors into coq/Gen/PcsVectors.v; the harness refers to the same constants)",
         "node stream: harness/cmd/pcs -mode node drives the real node.CapabilityTEE.Verify; CBOR decoding of attestation/constraints is done by the real code and its result is the model's input; SHA-512/256, TupleHash and Ed25519 (signature.PublicKey.Verify) are real in the correspondence and abstract in the theorems; the model's copy of the RAK-binding context string is checked against node.HashRAK on every case",
         "table lookups by 63-bit fingerprint: the harness registers every fingerprint with the SHA-256 of its argument and aborts (exit 4) if two different arguments share one; a model-side query of an unrecorded argument colliding with a recorded one has probability about 2^-63 per query",
@@ -27,6 +28,8 @@ SPEC = {
         "validity_window_interval assumes the X.509 path-validation predicates are interval-shaped in the verification time (stated as explicit hypotheses)",
         "the validity window is the code's: issueDate <= ts <= issueDate + policy.TCBValidityPeriod days; nextUpdate is parsed but not compared with ts (accept_implies_before_next_update_refuted; observed on the implementation and reported in coverage.streams.pcs.extra)",
         "FMSPC white/blacklists are compared with the TCB info's FMSPC string, case-sensitively (fmspc_blacklist_by_value_refuted; observed and reported in extra)",
+        "TDX: SEAMATTRIBUTES / tdxModule of the TCB info are never compared (tdx_seam_attributes_checked_refuted; observed on synthetic bundles, reported in extra); PCK/root CRLs and the TCB info's pceId/tcbType are not consulted by the code and are outside the model",
+        "registry layer: VerifyNodeRuntimeEnclaveIDs is modelled (first deployment with the node's runtime version; hardware match); at genesis / in the sanity checker a failing attestation does not reject (genesis_ignores_attestation); the verdict depends on the process-wide unsafe switches (verdict_depends_on_process_switches), which are node-local",
         "node layer: the IAS branch of quote.Quote.Verify is not modelled (NNotModelled, never generated); with the SignedAttestations feature off, node id / height / REK / signature are not bound (unsigned_attestation_frame)",
         "process switches unsafeSkipVerify and the MRSIGNER blacklist are not exercised by the harness (the blacklist is modelled; skip-verify is not)",
     ],
@@ -34,6 +37,6 @@ SPEC = {
 
 MANIFEST = {
     "technique": "Coq proof (inversion of a check-order-faithful executable model of QuoteBundle.Verify over abstract crypto; interval argument for the time window) with differential correspondence check against the real verifier on mutated known-good SGX/TDX vectors and synthetic validly-signed bundles",
-    "level_text": "Theorems in coq/Props/C18.v hold for every raw quote, collateral, verification time, policy, process switch setting and every interpretation of the cryptographic/parsing primitives: acceptance implies every named check (policy, TEE/TDX module, debug mode, PCK chain at ts, QE report signature, QE report data binding of attestation key and authentication data, quote signature over header||report body, TCB chain at ts and both collateral signatures, validity windows, evaluation numbers, FMSPC equality and lists, matched TCB level status, QE identity); the returned identity and report data are a function of the signed report body located at fixed offsets of the raw quote, so two accepted inputs with equal signed regions return equal outputs and the unread slack is irrelevant; expired / disallowed-status / foreign-platform collateral is never accepted; acceptance times form an interval when X.509 validity does. The model is tied to the code by running the real verifier and the model (vm_compute, primitives instantiated by the recorded graph of the real primitives) on the same seeded cases and comparing verdict, rejection reason and verified output; an independent Go oracle checks the property predicates on the implementation directly.",
-    "level_note": "Trusted: Coq kernel; harness (region splitter, primitive evaluation, error-string classification); ECDSA, SHA-256, X.509, JSON, TupleHash are abstract in the proofs and real in the correspondence. Deviations from the property text found in the code and proved as *_refuted: nextUpdate is never compared with the verification time; FMSPC lists are string comparisons.",
+    "level_text": "Theorems in coq/Props/C18.v hold for every raw quote, collateral, verification time, policy, process switch setting and every interpretation of the cryptographic/parsing primitives. Quote layer (pcs.QuoteBundle.Verify, SGX and TDX): acceptance implies, clause by clause as the code enforces it, PCK chain valid at ts, QE report signed by the PCK key, QE report data = SHA-256(attestation key || auth data) || 0, header||body signed by the attestation key, TCB chain valid at ts and both collateral bodies signed, the platform TCB level used is the FIRST matching level of the signed TCB info (and the TDX module level rule), its status admitted, both evaluation numbers >= minimum, both bodies inside issueDate..issueDate+period, FMSPC equality and lists, QE identity match; the returned identity/report data are a function of the signed report body at fixed offsets; acceptance times form an interval. Node layer (node.CapabilityTEE.Verify): acceptance implies the report data's first half is SHA-512/256(context || RAK), the identity is in the deployment's allow-list, and (signed attestations) the RAK signed TupleHash(report data, node id, height, REK) with the height in the freshness window. Registry layer (VerifyNodeRuntimeEnclaveIDs): hardware match, first deployment of the node's runtime version, verdict a function of explicit inputs only and no wall-clock use on the path (regenerated from the source). Clauses the code does not enforce are proved as *_refuted with witnesses. The models are tied to the code by running the real verifiers and the models (vm_compute, primitives instantiated by the recorded graph of the real primitives) on the same seeded cases; independent Go oracles check the property predicates on the implementation.",
+    "level_note": "Refuted clauses: nextUpdate never compared with ts; FMSPC lists are string comparisons; TDX SEAMATTRIBUTES/tdxModule never compared; report data binds only the RAK (REK, node id, height only through the RAK signature, and only with the SignedAttestations feature); attestation failures ignored at genesis; verdict depends on node-local unsafe switches. Trusted: Coq kernel; harness (region splitter, primitive evaluation, error-string classification); ECDSA, SHA-256, X.509, JSON, TupleHash are abstract in the proofs and real in the correspondence. Deviations from the property text found in the code and proved as *_refuted: nextUpdate is never compared with the verification time; FMSPC lists are string comparisons.",
 }
